@@ -84,3 +84,7 @@ def atom_deleting_link_removes_node_1_or_2(f):
 
 def atom_deleting_link_and_requested_edge_without_link(f):
     return bool(f.get("removal_link"))
+
+
+def default_grid_point_on_upper_box_face(f):
+    return bool(f.get("grid_point_on_box_face"))
